@@ -1014,7 +1014,13 @@ static void build_expr(WorkList *list, ASTNode *expr, Environment *env) {
                                                         (op == TOKEN_STAR) ? "*" :
                                                         (op == TOKEN_SLASH) ? "/" :
                                                         "%";
-                                    emit_formatted(list, "dyn_array_push_%s(_out, _x %s _y); ", push_suffix, op_str);
+                                    if (elem == TYPE_INT && (op == TOKEN_SLASH || op == TOKEN_PERCENT)) {
+                                        /* as for scalars: INT64_MIN / -1 and % -1 are defined (they wrap) */
+                                        emit_formatted(list, "dyn_array_push_%s(_out, %s(_x, _y)); ", push_suffix,
+                                                       op == TOKEN_SLASH ? "nl_idiv" : "nl_imod");
+                                    } else {
+                                        emit_formatted(list, "dyn_array_push_%s(_out, _x %s _y); ", push_suffix, op_str);
+                                    }
                                 }
                                 emit_literal(list, "} _out; })");
                             } else {
